@@ -224,7 +224,7 @@ def run_num(case):
                 if wf is None:
                     continue
                 want = wf
-                ok = isinstance(have, (int, float)) and abs(have - wf) <= 1e-7 * max(abs(wf), 1e-30) + 1e-300
+                ok = isinstance(have, (int, float)) and gram.fclose(have, wf)
             if not ok:
                 fails.append(_fail(f"{name}(x)==reference", dict(inp0, parser=name, x=list(x)), have, want))
     return {"evals": evals, "nontrivial": int(nonzero > 0), "fails": fails, "counters": {"executions": evals, "float_skipped_nonconvergent": int(not float_ok)}}
@@ -280,7 +280,7 @@ def run_sched(case):
                 r = _call(lambda: earley_rescaled.Earley(gf)(x))
                 if isinstance(r, str):
                     return r
-                return "ok" if abs(r - wf) <= 1e-7 * max(abs(wf), 1e-30) + 1e-300 else repr(r)
+                return "ok" if gram.fclose(r, wf) else repr(r)
 
             res = es.explore(run_res, p["sched_bound"], max_exec=3000)
             execs += res["executions"]
